@@ -743,7 +743,7 @@ func main() {
 			if po.Kind == "positioned" && (po.Offset < 0 || po.Offset > len(data)+2) {
 				c.Fail("error-position-outside-file", fmt.Sprintf("error position %d outside the %d-byte file", po.Offset, len(data)), in)
 			}
-			if el > 20*time.Second && len(data) < 100000 {
+			if el > 120*time.Second && len(data) < 100000 {
 				c.Fail("parse-too-slow", fmt.Sprintf("parsing %d bytes took %v", len(data), el), in)
 			}
 		}
